@@ -102,13 +102,6 @@ Qed.
 
 (* ---------------------------------------------------------------- refinement *)
 
-(* a rolling range is only the range of the observed values when the window holds no missing value:
-   Rolling.apply(np.ptp, raw=True) returns NaN for every window that contains a NaN *)
-Definition range_clean (ct : check_type) (p : Z) (xs : list obs) (ts : list Z) : Prop :=
-  ct = Range ->
-  forall i j, (i < length xs)%nat -> getq xs i <> None -> In j (window p ts (length xs) i) ->
-              getq xs j <> None.
-
 Definition atten_dom (ct : check_type) (test_period min_obs min_period : option Z)
     (xs : list obs) (ts : list Z) : Prop :=
   xs <> [] ->                                      (* the empty series is returned as is *)
@@ -116,12 +109,12 @@ Definition atten_dom (ct : check_type) (test_period min_obs min_period : option 
   | None => True                                   (* whole-series mode: no condition *)
   | Some p =>
       (0 < p)%Z /\ length ts = length xs /\ increasing ts /\
-      (exists m, min_periods min_obs min_period ts = Some m /\ (0 <= m)%Z) /\
-      range_clean ct p xs ts
+      (exists m, min_periods min_obs min_period ts = Some m /\ (0 <= m)%Z)
   end.
 
-(* Full statement (without atten_dom) is false: see atten_refuted_range_nan below.
-     forall check st ft tp mo mp xs ts, atten_model check st ft tp mo mp xs ts = atten_spec ... *)
+(* atten_dom only states the validity of the parameters and of the time axis (positive period, increasing axis
+   of the right length, admissible minimum): every placement of missing values is covered, for both check types.
+   (Before the repair of F19 the range mode also needed "no missing value inside the window of a present point".) *)
 Lemma atten_refines check st ft tp mo mp xs ts :
   (forall ct, parse_check_type check = Some ct -> atten_dom ct tp mo mp xs ts) ->
   atten_model check st ft tp mo mp xs ts = atten_spec check st ft tp mo mp xs ts.
@@ -135,7 +128,7 @@ Proof.
   assert (Hn0 : Nat.eqb (length xs) 0 = false) by (subst; reflexivity).
   rewrite Hn0. specialize (Hdom Hne). clear Exs.
   destruct (period_of tp) as [p|].
-  - destruct Hdom as (Hp & Hlen & Hinc & (m & Hm & Hm0) & Hclean).
+  - destruct Hdom as (Hp & Hlen & Hinc & (m & Hm & Hm0)).
     unfold minp_of. rewrite Hm. rewrite Hlen, Nat.eqb_refl. simpl negb.
     rewrite (increasing_mono_inc ts Hinc). simpl.
     replace (m <? 0)%Z with false by (symmetry; apply Z.ltb_ge; exact Hm0).
@@ -143,17 +136,7 @@ Proof.
     unfold atten_pt, atten_spread.
     rewrite (window_pd_window p ts (length xs) i Hinc Hp (eq_sym Hlen) Hi).
     destruct (getq xs i) as [x|] eqn:Ex; [|reflexivity].
-    f_equal. unfold win_spread_pd, win_spread.
-    destruct ct; [reflexivity|].
-    set (w := map (getq xs) (window p ts (length xs) i)).
-    destruct (Z.of_nat (length (present w)) <? m)%Z; [reflexivity|].
-    assert (Hall : existsb is_none w = false).
-    { apply present_all. intros o Ho. unfold w in Ho. apply in_map_iff in Ho.
-      destruct Ho as (j & <- & Hj). apply (Hclean eq_refl i j Hi); [rewrite Ex; discriminate|exact Hj]. }
-    assert (Hone : (1 <= length (present w))%nat).
-    { apply (present_in x). unfold w. apply in_map_iff. exists i. split; [exact Ex|].
-      apply window_self; assumption. }
-    rewrite Hall. destruct (Nat.ltb_spec (length (present w)) 1); [lia|reflexivity].
+    reflexivity.                   (* win_spread_pd is now win_spread *)
   - rewrite atten_flags_tab. reflexivity.
 Qed.
 
@@ -165,26 +148,11 @@ Lemma parse_check_type_names :
   parse_check_type "std" = Some Std /\ parse_check_type "range" = Some Range.
 Proof. split; reflexivity. Qed.
 
-(* the real code deviates from the property on these inputs *)
-
-(* rolling range: a missing value inside the window makes the (present) point UNKNOWN although the
-   window holds two observed values with range 3 (>= fail 1, < suspect 5: SUSPECT expected) *)
-Lemma atten_refuted_range_nan :
-  exists check st ft tp mo mp xs ts,
-    length ts = length xs /\ increasing ts /\
-    atten_model check st ft tp mo mp xs ts <> atten_spec check st ft tp mo mp xs ts.
-Proof.
-  exists "range"%string, 5, 1, (Some 3%Z), None, None,
-         [Some 0; None; Some 3], [0; 1000000000; 2000000000]%Z.
-  split; [reflexivity|]. split.
-  - intros i j Hij Hj. simpl in Hj.
-    destruct j as [|[|[|j]]]; try lia; destruct i as [|[|i]]; try lia; reflexivity.
-  - vm_compute. discriminate.
-Qed.
-
-Lemma atten_refuted_range_nan_flags :
+(* the witness of the former deviation F19 (rolling range, a missing value inside the window): the present
+   point is now judged on the two observed values of its window (range 3: >= fail 1, < suspect 5) *)
+Example atten_range_nan_ok :
   atten_model "range" 5 1 (Some 3%Z) None None [Some 0; None; Some 3] [0; 1000000000; 2000000000]%Z
-    = Flags [FAIL; MISSING; UNKNOWN] /\
+    = Flags [FAIL; MISSING; SUSPECT] /\
   atten_spec "range" 5 1 (Some 3%Z) None None [Some 0; None; Some 3] [0; 1000000000; 2000000000]%Z
     = Flags [FAIL; MISSING; SUSPECT].
 Proof. split; vm_compute; reflexivity. Qed.
@@ -871,35 +839,15 @@ Lemma atten_model_empty check st ft tp mo mp ts ct :
   parse_check_type check = Some ct -> atten_model check st ft tp mo mp [] ts = Flags [].
 Proof. intros H. unfold atten_model. rewrite H. reflexivity. Qed.
 
-(* rolling standard deviation: increasing axis, positive period, admissible min_periods; any
+(* rolling mode, either check type: increasing axis, positive period, admissible min_periods; any
    placement of missing values *)
-Lemma atten_refines_std_rolling st ft p mo mp xs ts m :
+Lemma atten_refines_rolling check ct st ft p mo mp xs ts m :
+  parse_check_type check = Some ct ->
   (0 < p)%Z -> length ts = length xs -> increasing ts ->
   min_periods mo mp ts = Some m -> (0 <= m)%Z ->
-  atten_model "std" st ft (Some p) mo mp xs ts = atten_spec "std" st ft (Some p) mo mp xs ts.
+  atten_model check st ft (Some p) mo mp xs ts = atten_spec check st ft (Some p) mo mp xs ts.
 Proof.
-  intros Hp Hl Hi Hm Hm0. apply atten_refines. intros ct Hct. inversion Hct; subst ct.
-  unfold atten_dom, period_of. intros _. destruct (Z.eqb_spec p 0) as [->|_]; [lia|].
-  repeat split; try assumption.
-  - exists m. split; assumption.
-  - intros H. discriminate.
-Qed.
-
-(* rolling range: additionally no missing value inside the window of a present point *)
-Lemma atten_refines_range_rolling st ft p mo mp xs ts m :
-  (0 < p)%Z -> length ts = length xs -> increasing ts ->
-  min_periods mo mp ts = Some m -> (0 <= m)%Z ->
-  range_clean Range p xs ts ->
-  atten_model "range" st ft (Some p) mo mp xs ts = atten_spec "range" st ft (Some p) mo mp xs ts.
-Proof.
-  intros Hp Hl Hi Hm Hm0 Hc. apply atten_refines. intros ct Hct. inversion Hct; subst ct.
+  intros Hc Hp Hl Hi Hm Hm0. apply atten_refines. intros ct' _.
   unfold atten_dom, period_of. intros _. destruct (Z.eqb_spec p 0) as [->|_]; [lia|].
   repeat split; try assumption. exists m. split; assumption.
-Qed.
-
-(* a series without missing values is always clean *)
-Lemma range_clean_full ct p xs ts :
-  (forall j, (j < length xs)%nat -> getq xs j <> None) -> range_clean ct p xs ts.
-Proof.
-  intros H _ i j _ _ Hj. apply H. apply window_iff in Hj. tauto.
 Qed.
